@@ -113,6 +113,42 @@ def run(run):
                                 elif got2 != wantc:
                                     run.violation("C14:rulefile-relayout-changes-results", "a re-wrapped rule body read by the %s gives other results: %r" % (path, text),
                                                   dict(base=base_text, layout=text, extracted=extracted, base_results=sum(wantc.values()), layout_results=sum(got2.values())))
+                    # very long physical lines (a whole query joined onto one line): same tokens, same results. The
+                    # 12 shifted variants move every byte offset across token interiors; one variant exceeds 64 KiB.
+                    if i < 2 and q.cond is not None and len(q.from_items) == 1:
+                        k0, a0 = q.from_items[0]
+                        for nconj, shifts in ((330, range(12)), (4800, (0,))):
+                            v = QG.clone(q)
+                            v.cond = ("paren", q.cond)
+                            QG.flatten(v)
+                            si = v.kinds.index("'SELECT'") if "'SELECT'" in v.kinds else v.kinds.index("SELECT")
+                            padtext = " ".join('&& %s . getName ( ) != "zq%05d"' % (a0, j) for j in range(nconj))
+                            one_line = GQ.render_kinds(v.kinds[:si], v.lexemes[:si]) + " " + padtext + " " + GQ.render_kinds(v.kinds[si:], v.lexemes[si:])
+                            for sh in shifts:
+                                text1 = " " * sh + one_line + "\n"
+                                for path in ("ci-reader", "file-reader"):
+                                    if path == "ci-reader":
+                                        extracted = (h.call(op="rule", text=text1).get("rule") or {}).get("query")
+                                    else:
+                                        fp = os.path.join(tmpdir, "long.cql")
+                                        open(fp, "w", encoding="utf-8", newline="").write(text1)
+                                        er = h.call(op="extract", path=fp)
+                                        extracted = er.get("query") if er.get("outcome") == "ok" else None
+                                    stats["long_line_cases"] += 1
+                                    run.count(("long-line", path, nconj, sh, i, pi))
+                                    r2 = h.call(op="query", graph=proj.name, q=extracted, output="json", timeout=300) if extracted is not None else dict(outcome="not-extracted", err=str(er.get("err")) if path != "ci-reader" else "")
+                                    got2 = None
+                                    if r2.get("outcome") == "ok":
+                                        try:
+                                            got2 = collections.Counter((e["file"], e["line"], e["code"]) for e in json.loads(r2["result"])["result_set"])
+                                        except Exception:
+                                            pass
+                                    if got2 is None:
+                                        run.violation("C14:long-line-invalid", "the query written on one line of %d bytes is not read as a valid query by the %s (%s), wrapped it is" % (len(text1), path, r2.get("err") or r2.get("outcome")),
+                                                      dict(base=base_text, line_bytes=len(text1), path=path, err=r2.get("err"), conjuncts_appended=nconj, leading_blanks=sh))
+                                    elif got2 != wantc:
+                                        run.violation("C14:long-line-changes-results", "the query written on one line of %d bytes gives other results through the %s" % (len(text1), path),
+                                                      dict(base=base_text, line_bytes=len(text1), path=path, conjuncts_appended=nconj, leading_blanks=sh))
                     # the recorded exception: white space next to the ' in ' token
                     if has_in:
                         k = q.kinds.index("' in '")
